@@ -47,6 +47,10 @@ type outWriter struct {
 	ErrorOnly bool     `json:"error_only,omitempty"`
 	Failed    bool     `json:"failed,omitempty"`
 	Chunks    []string `json:"chunks"`
+	// Err[i]: chunk i is written to the command's STDERR writer (second result of WrapWriter) instead of
+	// its stdout writer.  Both streams of one command share one line buffer / one group buffer, so the
+	// model does not look at the tag: every byte written to either stream must come out.
+	Err []bool `json:"err,omitempty"`
 }
 
 type outCase struct {
@@ -73,19 +77,25 @@ func (w outWriter) tokens() string {
 	return b.String()
 }
 
-func wrap(w outWriter, sink io.Writer, pfx *export.OutputPrefixed) (io.Writer, export.OutputCloseFunc) {
+type outPair struct{ out, err io.Writer }
+
+func wrap(w outWriter, sink io.Writer, pfx *export.OutputPrefixed) (outPair, export.OutputCloseFunc) {
 	cache := &export.TemplaterCache{Vars: ast.NewVars()}
 	if w.Kind == "p" {
-		o, _, cl := pfx.WrapWriter(sink, sink, w.Prefix, cache)
-		return o, cl
+		o, e, cl := pfx.WrapWriter(sink, sink, w.Prefix, cache)
+		return outPair{o, e}, cl
 	}
 	g := export.OutputGroup{Begin: w.Begin, End: w.End, ErrorOnly: w.ErrorOnly}
-	o, _, cl := g.WrapWriter(sink, sink, "", cache)
-	return o, cl
+	o, e, cl := g.WrapWriter(sink, sink, "", cache)
+	return outPair{o, e}, cl
 }
 
-func drive(w outWriter, out io.Writer, cl export.OutputCloseFunc, yield bool) {
-	for _, c := range w.Chunks {
+func drive(w outWriter, pair outPair, cl export.OutputCloseFunc, yield bool) {
+	for i, c := range w.Chunks {
+		out := pair.out
+		if i < len(w.Err) && w.Err[i] {
+			out = pair.err
+		}
 		out.Write([]byte(c))
 		if yield {
 			runtime.Gosched()
@@ -198,6 +208,13 @@ func (c *Ctx) chunk(s string) []string {
 
 func (c *Ctx) genWriter(i int, kind string) outWriter {
 	w := outWriter{Kind: kind, Chunks: c.chunk(c.outBytes(14))}
+	if c.Rng.Intn(2) == 0 {
+		w.Err = make([]bool, len(w.Chunks))
+		for i := range w.Err {
+			w.Err[i] = c.Rng.Intn(3) == 0
+		}
+		c.Hit("stderr-chunks")
+	}
 	if kind == "p" {
 		w.Prefix = fmt.Sprintf("t%d%s", i, []string{"", "", ":x", " y", "%d"}[c.Rng.Intn(5)])
 	} else {
